@@ -28,6 +28,8 @@ pub struct DCase {
     pub order: Option<Vec<String>>,
     pub blocks: Option<BTreeMap<String, String>>,
     pub extra: u32,
+    /// data-store inserts applied to every loaded font before it is saved: (key, content)
+    pub edits: Vec<(String, String)>,
 }
 
 const PLIST_HEAD: &str = "<?xml version=\"1.0\" encoding=\"UTF-8\"?>\n<!DOCTYPE plist PUBLIC \"-//Apple//DTD PLIST 1.0//EN\" \"http://www.apple.com/DTDs/PropertyList-1.0.dtd\">\n<plist version=\"1.0\">\n";
@@ -177,12 +179,18 @@ fn written_sorted(dir: &Path) -> bool {
 }
 
 /// one load (+ save) of `tree`; returns (dump or error class, tree hash of the save, sorted)
-fn load_save(tree: &Path, out: &Path) -> (String, u64, bool) {
+fn load_save(tree: &Path, out: &Path, edits: &[(String, String)]) -> (String, u64, bool) {
     match guarded(|| Font::load(tree)) {
         Err(_) => ("panic".to_string(), 0, true),
         Ok(Err(e)) => (format!("err {}", format!("{:?}", e).split(|c: char| !c.is_alphanumeric()).next().unwrap_or("?")), 0, true),
-        Ok(Ok(f)) => {
-            let d = dump_font(&f);
+        Ok(Ok(mut f)) => {
+            let mut rejected = String::new();
+            for (k, v) in edits {
+                if f.data.insert(PathBuf::from(k), v.as_bytes().to_vec()).is_err() {
+                    rejected.push_str(&format!("{},", hexs(k)));
+                }
+            }
+            let d = format!("{} REJ:{}", dump_font(&f), rejected);
             rm_rf(out);
             match guarded(|| f.save(out)) {
                 Ok(Ok(())) => {
@@ -201,8 +209,8 @@ fn load_save(tree: &Path, out: &Path) -> (String, u64, bool) {
 }
 
 /// entry point of the spawned child process: prints `<tree hash> <sorted> <dump>`
-pub fn child(tree: &str, out: &str) {
-    let (d, h, s) = load_save(Path::new(tree), Path::new(out));
+pub fn child(tree: &str, out: &str, edits_tok: &str) {
+    let (d, h, s) = load_save(Path::new(tree), Path::new(out), &parse_edits(edits_tok));
     println!("{:016x} {} {}", h, s as u8, d);
 }
 
@@ -215,7 +223,7 @@ pub fn observe_case(c: &DCase, dir: &Path, loads: usize, procs: usize) -> String
     let mut sorted = true;
     let mut first: Option<String> = None;
     for i in 0..loads {
-        let (d, h, s) = load_save(&tree, &out);
+        let (d, h, s) = load_save(&tree, &out, &c.edits);
         if first.is_none() {
             first = Some(d.clone());
         }
@@ -224,7 +232,10 @@ pub fn observe_case(c: &DCase, dir: &Path, loads: usize, procs: usize) -> String
         sorted &= s;
         if i == 0 {
             // the same font saved a second time
-            if let Ok(Ok(f)) = guarded(|| Font::load(&tree)) {
+            if let Ok(Ok(mut f)) = guarded(|| Font::load(&tree)) {
+                for (k, v) in &c.edits {
+                    let _ = f.data.insert(PathBuf::from(k), v.as_bytes().to_vec());
+                }
                 for _ in 0..2 {
                     rm_rf(&out);
                     if let Ok(Ok(())) = guarded(|| f.save(&out)) {
@@ -238,7 +249,7 @@ pub fn observe_case(c: &DCase, dir: &Path, loads: usize, procs: usize) -> String
     let exe = std::env::current_exe().unwrap();
     for j in 0..procs {
         let o = dir.join(format!("outp{}.ufo", j));
-        let r = std::process::Command::new(&exe).arg("c10child").arg(&tree).arg(&o).output();
+        let r = std::process::Command::new(&exe).arg("c10child").arg(&tree).arg(&o).arg(edits_tok(&c.edits)).output();
         match r {
             Ok(outp) if outp.status.success() => {
                 let txt = String::from_utf8_lossy(&outp.stdout).trim().to_string();
@@ -266,6 +277,21 @@ pub fn observe_case(c: &DCase, dir: &Path, loads: usize, procs: usize) -> String
     format!("ok d={} t={} sorted={} {} {} {}", dumps.len(), trees.len(), sorted as u8, toks[0], toks[1], toks[2])
 }
 
+pub fn edits_tok(e: &[(String, String)]) -> String {
+    format!("E:{}", e.iter().map(|(k, v)| format!("{}={}", hexs(k), hexs(v))).collect::<Vec<_>>().join(","))
+}
+
+pub fn parse_edits(t: &str) -> Vec<(String, String)> {
+    t[2..]
+        .split(',')
+        .filter(|x| !x.is_empty())
+        .map(|e| {
+            let (k, v) = e.split_once('=').unwrap();
+            (String::from_utf8(unhex(k)).unwrap(), String::from_utf8(unhex(v)).unwrap())
+        })
+        .collect()
+}
+
 impl DCase {
     pub fn tokens(&self) -> String {
         let base = self.base.tokens();
@@ -283,7 +309,7 @@ impl DCase {
             None => "B!".to_string(),
             Some(m) => format!("B:{}", m.iter().map(|(k, v)| format!("{}={}", hexs(k), hexs(v))).collect::<Vec<_>>().join(";")),
         };
-        format!("C10 det {} {} {} {} {} {} {} X:{}", t[2], t[3], t[4], t[6], f, o, b, self.extra)
+        format!("C10 det {} {} {} {} {} {} {} X:{} {}", t[2], t[3], t[4], t[6], f, o, b, self.extra, edits_tok(&self.edits))
     }
     pub fn from_tokens(toks: &[&str]) -> DCase {
         let un = |s: &str| String::from_utf8(unhex(s)).unwrap();
@@ -314,7 +340,200 @@ impl DCase {
             )
         };
         let extra = toks[9][2..].parse().unwrap();
-        DCase { base, classes, order, blocks, extra }
+        let edits = if toks.len() > 10 { parse_edits(toks[10]) } else { Vec::new() };
+        DCase { base, classes, order, blocks, extra, edits }
+    }
+}
+
+
+// ---------------------------------------------------------------- equal fonts, different insertion histories
+//
+// `C10 lib <V1> <V2> => eq=<0|1> same=<0|1> lg=<0|1> W1:<V> W2:<V>`
+// `<V>` = `i<int>` | `s<hex>` | `d(<hexkey>=<V>,..)` | `a(<V>,..)` (dictionary entries in insertion order).
+// Two fonts are built through the API with the font lib, the default layer's lib and the lib of one
+// glyph set to V1 resp. V2; `eq` = the two `Font`s compare equal, `same` = their saved trees are byte
+// identical, `W1`/`W2` = the font lib as written (entry order of the reloaded lib.plist), `lg` = the
+// layerinfo lib and the glyph lib were written in the same order as the font lib.
+
+pub fn val_tok(v: &plist::Value) -> String {
+    match v {
+        plist::Value::Integer(i) => format!("i{}", i.as_signed().unwrap_or(0)),
+        plist::Value::String(s) => format!("s{}", hexs(s)),
+        plist::Value::Dictionary(d) => {
+            format!("d({})", d.iter().map(|(k, v)| format!("{}={}", hexs(k), val_tok(v))).collect::<Vec<_>>().join(","))
+        }
+        plist::Value::Array(a) => format!("a({})", a.iter().map(val_tok).collect::<Vec<_>>().join(",")),
+        _ => "i0".to_string(),
+    }
+}
+
+fn parse_val_at(b: &[u8], i: &mut usize) -> plist::Value {
+    let c = b[*i];
+    *i += 1;
+    match c {
+        b'i' => {
+            let st = *i;
+            while *i < b.len() && (b[*i] == b'-' || b[*i].is_ascii_digit()) {
+                *i += 1;
+            }
+            plist::Value::Integer(std::str::from_utf8(&b[st..*i]).unwrap().parse::<i64>().unwrap().into())
+        }
+        b's' => {
+            let st = *i;
+            while *i < b.len() && (b[*i] == b'-' || b[*i].is_ascii_hexdigit()) {
+                *i += 1;
+            }
+            plist::Value::String(String::from_utf8(unhex(std::str::from_utf8(&b[st..*i]).unwrap())).unwrap())
+        }
+        b'd' => {
+            *i += 1; // (
+            let mut d = plist::Dictionary::new();
+            while b[*i] != b')' {
+                if b[*i] == b',' {
+                    *i += 1;
+                }
+                let st = *i;
+                while b[*i] != b'=' {
+                    *i += 1;
+                }
+                let k = String::from_utf8(unhex(std::str::from_utf8(&b[st..*i]).unwrap())).unwrap();
+                *i += 1;
+                let v = parse_val_at(b, i);
+                d.insert(k, v);
+            }
+            *i += 1;
+            plist::Value::Dictionary(d)
+        }
+        b'a' => {
+            *i += 1;
+            let mut a = Vec::new();
+            while b[*i] != b')' {
+                if b[*i] == b',' {
+                    *i += 1;
+                }
+                a.push(parse_val_at(b, i));
+            }
+            *i += 1;
+            plist::Value::Array(a)
+        }
+        _ => panic!("bad value token"),
+    }
+}
+
+pub fn parse_val(t: &str) -> plist::Value {
+    let mut i = 0;
+    parse_val_at(t.as_bytes(), &mut i)
+}
+
+const LIB_KEYS: &[&str] = &["a", "b", "c", "k", "z", "A", "com.x", "\u{e9}"];
+
+fn gen_val(rng: &mut Rng, depth: usize, want_dict: bool) -> plist::Value {
+    let r = if want_dict { 0 } else { rng.below(10) };
+    if depth > 0 && r < 4 {
+        let mut d = plist::Dictionary::new();
+        for _ in 0..rng.below(4) + if want_dict { 1 } else { 0 } {
+            let k = rng.pick(LIB_KEYS).to_string();
+            let v = gen_val(rng, depth - 1, false);
+            d.insert(k, v);
+        }
+        plist::Value::Dictionary(d)
+    } else if depth > 0 && r < 6 {
+        let n = rng.below(3);
+        plist::Value::Array((0..n).map(|_| gen_val(rng, depth - 1, false)).collect())
+    } else if r < 8 {
+        plist::Value::Integer((rng.range(-5, 5)).into())
+    } else {
+        plist::Value::String(rng.pick(&["x", "y", "hello"]).to_string())
+    }
+}
+
+/// the same value with the entries of every dictionary (also inside arrays) re-inserted in another order
+fn reorder(rng: &mut Rng, v: &plist::Value, inside_arrays: bool, in_array: bool) -> plist::Value {
+    match v {
+        plist::Value::Dictionary(d) => {
+            let mut es: Vec<(String, plist::Value)> =
+                d.iter().map(|(k, v)| (k.clone(), reorder(rng, v, inside_arrays, in_array))).collect();
+            if !in_array || inside_arrays {
+                for i in (1..es.len()).rev() {
+                    let j = rng.below(i + 1);
+                    es.swap(i, j);
+                }
+            }
+            let mut nd = plist::Dictionary::new();
+            for (k, v) in es {
+                nd.insert(k, v);
+            }
+            plist::Value::Dictionary(nd)
+        }
+        plist::Value::Array(a) => plist::Value::Array(a.iter().map(|x| reorder(rng, x, inside_arrays, true)).collect()),
+        other => other.clone(),
+    }
+}
+
+fn build_font(v: &plist::Value) -> Font {
+    let d = v.as_dictionary().cloned().unwrap_or_default();
+    let mut f = Font::new();
+    f.lib = d.clone();
+    f.default_layer_mut().lib = d.clone();
+    let mut g = norad::Glyph::new("a");
+    g.lib = d;
+    f.default_layer_mut().insert_glyph(g);
+    f
+}
+
+pub fn observe_lib(v1: &plist::Value, v2: &plist::Value, dir: &Path) -> String {
+    let f1 = build_font(v1);
+    let f2 = build_font(v2);
+    let eq = f1 == f2;
+    let o1 = dir.join("lib1.ufo");
+    let o2 = dir.join("lib2.ufo");
+    rm_rf(&o1);
+    rm_rf(&o2);
+    let r1 = guarded(|| f1.save(&o1));
+    let r2 = guarded(|| f2.save(&o2));
+    if !matches!(r1, Ok(Ok(()))) || !matches!(r2, Ok(Ok(()))) {
+        rm_rf(&o1);
+        rm_rf(&o2);
+        return "err save".to_string();
+    }
+    let same = tree_hash(&o1) == tree_hash(&o2);
+    let written = |o: &Path| -> (String, bool) {
+        match guarded(|| Font::load(o)) {
+            Ok(Ok(f)) => {
+                let w = val_tok(&plist::Value::Dictionary(f.lib.clone()));
+                let wl = val_tok(&plist::Value::Dictionary(f.default_layer().lib.clone()));
+                let wg = f.get_glyph("a").map(|g| val_tok(&plist::Value::Dictionary(g.lib.clone()))).unwrap_or_default();
+                let lg = wl == w && wg == w;
+                (w, lg)
+            }
+            _ => ("reload-failed".to_string(), false),
+        }
+    };
+    let (w1, lg1) = written(&o1);
+    let (w2, lg2) = written(&o2);
+    rm_rf(&o1);
+    rm_rf(&o2);
+    format!("eq={} same={} lg={} W1:{} W2:{}", eq as u8, same as u8, (lg1 && lg2) as u8, w1, w2)
+}
+
+fn gen_lib_lines(rng: &mut Rng, n: usize, dir: &Path, out: &mut dyn Write) {
+    for i in 0..n {
+        let v1 = gen_val(rng, 4, true);
+        // most cases: reorder only where the sort reaches (outside arrays); a share also inside arrays;
+        // a few with a changed value (unequal fonts)
+        let inside = i % 4 == 0;
+        let mut v2 = reorder(rng, &v1, inside, false);
+        if i % 17 == 5 {
+            if let plist::Value::Dictionary(d) = &mut v2 {
+                d.insert("changed".to_string(), plist::Value::Integer(1.into()));
+            }
+        }
+        // an empty lib is not written at all; keep at least one entry
+        if v1.as_dictionary().map(|d| d.is_empty()).unwrap_or(true) {
+            continue;
+        }
+        let obs = observe_lib(&v1, &v2, dir);
+        writeln!(out, "C10 lib {} {} => {}", val_tok(&v1), val_tok(&v2), obs).unwrap();
     }
 }
 
@@ -325,13 +544,18 @@ fn scratch() -> PathBuf {
 }
 
 pub fn observe(toks: &[&str]) -> String {
+    if toks[1] == "lib" {
+        let r = observe_lib(&parse_val(toks[2]), &parse_val(toks[3]), &scratch());
+        rm_rf(&scratch());
+        return r;
+    }
     let c = DCase::from_tokens(toks);
     let r = observe_case(&c, &scratch(), 24, 3);
     rm_rf(&scratch());
     r
 }
 
-const TAGS: &[&str] = &["kern", "liga", "aalt", "smcp", "c2sc", "zero", "Kern", "ss01"];
+const TAGS: &[&str] = &["kern", "liga", "aalt", "Kern", "KERN", "zero", "SS01", "ss01"];
 
 fn gen_groups_colliding(rng: &mut Rng) -> (Groups, Kerning) {
     // several groups that collide after prefixing, on both sides
@@ -398,7 +622,19 @@ fn gen_dcase(rng: &mut Rng) -> DCase {
     } else {
         None
     };
-    DCase { base, classes, order, blocks, extra: rng.below(8) as u32 }
+    // data-store inserts; a share with keys that name the same file (`a.txt`, `./a.txt`)
+    let mut edits: Vec<(String, String)> = Vec::new();
+    if rng.chance(1, 3) {
+        const KEYS: &[&str] = &["a.txt", "./a.txt", "b/c.txt", "b/./c.txt", "n.txt", "q/r/s.txt", "./n.txt", "q/r/t.txt"];
+        for _ in 0..1 + rng.below(4) {
+            let k = rng.pick(KEYS).to_string();
+            if !edits.iter().any(|(x, _)| *x == k) {
+                let v = format!("content-of-{}", edits.len());
+                edits.push((k, v));
+            }
+        }
+    }
+    DCase { base, classes, order, blocks, extra: rng.below(8) as u32, edits }
 }
 
 pub fn gen(tier: &str, seed: u64, out: &mut dyn Write) {
@@ -413,5 +649,6 @@ pub fn gen(tier: &str, seed: u64, out: &mut dyn Write) {
         let obs = observe_case(&c, &dir, loads, procs);
         writeln!(out, "{} => {}", c.tokens(), obs).unwrap();
     }
+    gen_lib_lines(&mut rng, if thorough { 20000 } else { 1500 }, &dir, out);
     rm_rf(&dir);
 }
